@@ -1,9 +1,9 @@
 /* Function contracts for source/priority_queue.c (property C06).
  *
- * Level: BOUNDED in the queue length (VERIF_PQ_N elements, 7 in the quick tier, 15 in the thorough tier), per element
- * size (VERIF_ITEM_SIZE, instantiated with 8 and 136 = beyond the 128-byte swap slice), inductive over histories:
- * every operation is checked from EVERY state that satisfies the representation invariant PQ_INV (not from scripted
- * histories) and must re-establish it, so the result covers all operation sequences that stay within the bound.
+ * Level: BOUNDED in the queue length (VERIF_PQ_N elements), per element size (VERIF_ITEM_SIZE, instantiated with 8 and
+ * 136 = beyond the 128-byte swap slice), inductive over histories: every operation is checked from EVERY state that
+ * satisfies the representation invariant PQ_INV (not from scripted histories) and must re-establish it, so the result
+ * covers all operation sequences that stay within the bound.
  *
  * Representation invariant  PQ_INV(q) = PQ_STATE(q) && PQ_HO(q)
  *   PQ_SHAPE   container: item_size == ISZ, length <= N, length*ISZ <= current_size == cap*ISZ, storage valid,
@@ -15,11 +15,11 @@
  *   PQ_HO      heap order: rank(a[parent(i)]) <= rank(a[i]) for every 1 <= i < length
  * "for every i" is an explicit conjunction over the N slots (no quantifier reaches the SAT back end, no spec loops).
  *
- * Comparator (DESIGN §4.6): pq_rank_cmp orders elements by a rank of the first byte of the element (the key):
- * rank(k) = (g_desc ? ~k : k) >> g_shift with nondeterministic g_desc, g_shift, i.e. ascending or descending order of
- * the key, with distinct keys comparing equal in blocks of 1, 2, 4 .. 128 (g_shift = 7: only two ranks, almost everything
- * ties).  The remaining ISZ-1 bytes are payload the comparator does not look at.  (An arbitrary 256-entry rank table -
- * every total preorder of the keys - was tried: heap-order obligations then do not finish.)
+ * Comparator (DESIGN §4.6): pq_rank_cmp orders elements by the first byte of the element (the key), ascending or
+ * descending (nondeterministic g_desc: min-heap and max-heap use of the queue).  The remaining ISZ-1 bytes are payload
+ * the comparator does not look at; elements with equal keys and different payloads are the "duplicates" (ties).
+ * (An arbitrary 256-entry rank table - every total preorder of the keys - was tried: heap-order obligations then do not
+ * finish.)
  *
  * Abstract view and ghost witnesses (DESIGN §4.3/§4.4), switched on by g_on, pinned to the pre-state in `requires`:
  *   g_pj                     arbitrary byte position inside an element
@@ -27,27 +27,38 @@
  *   g_pos                    CURSOR: the slot that currently holds the element that was in slot g_ki before the call.
  *                            "contents equal a reference multiset" is stated pointwise: after the call the element (and
  *                            handle) of the arbitrary old slot g_ki is in slot g_pos, unless it is the one taken out; the
- *                            pushed element is followed the same way (g_ki == old length).  The cursor is moved only by
- *                            the element swap (s_swap, see pq_swap_tracked), as the image under the transposition (a b);
- *                            old slot -> new slot is therefore a composition of transpositions (a bijection), which is
- *                            what makes the pointwise statement a multiset statement.  (Counting formulations -
- *                            "number of stored elements of a class is unchanged" - were tried and are out of reach of
- *                            the SAT back end even for one symbolic swap of 7 elements.)
+ *                            pushed element is followed the same way (g_ki == old length).  The cursor is moved only at
+ *                            the element swap (ghost hook around the call of aws_array_list_swap in s_swap, see the
+ *                            unit), as the image under the transposition (a b); old slot -> new slot is therefore a
+ *                            composition of transpositions (a bijection), which is what makes the pointwise statement a
+ *                            multiset statement.  That the cursor slot really holds the ghost element afterwards is an
+ *                            obligation, not an assumption.  (Counting formulations - "number of stored elements of a
+ *                            class is unchanged" - were tried and are out of reach of the SAT back end even for one
+ *                            symbolic swap of 7 elements.)
  *   g_h,g_h_idx,g_h_inq,g_h_key,g_h_b   arbitrary handle of the pool: its index field, whether it is in the queue,
  *                            and the element (key, byte g_pj) it identifies before the call
+ *   g_out,g_out_b            arbitrary byte of the element storage: "storage outside the live elements untouched"
+ *   g0_*                     pre-state values of the struct fields (instead of __CPROVER_old, see below)
  * A handle h is "in the queue" iff  bp live && g_nodes[h].current_index < length && bp[current_index] == &g_nodes[h].
  *
+ * HOW THE CONTRACTS ARE DISCHARGED.  Each contract is a clause list  PQ_C_<function>(REQ, ENS, args..)  that is used twice:
+ *   - as a CBMC function contract on the re-declaration below (REQ -> __CPROVER_requires, ENS -> __CPROVER_ensures), and
+ *   - in the proof unit as assume(requires); call the REAL function; assert(ensures)  (REQ -> assume, ENS -> named assert).
+ * DFCC enforcement (--enforce-contract) of these contracts was measured: the instrumented formula is 5-10 times larger
+ * and no unit except s_swap finished within 15 minutes at 7 elements, so the deciding step is the assume/assert form
+ * of the SAME clause text (as DESIGN §5/C02 anticipates).  Consequently the `assigns` clauses below are NOT checked by
+ * DFCC; the frame is stated as explicit postconditions instead (struct fields via g0_*, storage via g_out, handles via
+ * g_h, slots via g_ki).  Pre-state values are pinned ghost variables, so the same text works in both forms.
  * The proof units build the pre-state in the harness (concrete objects, nondeterministic sizes/contents/handle
- * assignment) and the `requires` clauses cut it down to PQ_INV; the contracts are enforced with DFCC on the REAL bodies
- * with all real callees (sift, swap, the inline array-list functions, aws_array_list_swap/mem_swap) inlined.  Only the
- * allocator entry points and the error slot are replaced by contracts.
+ * assignment); the requires clauses cut it down to PQ_INV.  All real callees (sift, swap, the inline array-list functions,
+ * aws_array_list_swap/mem_swap) are inlined; only the allocator entry points and the error slot are modelled.
  */
 #ifndef VERIF_CONTRACTS_PRIORITY_QUEUE_H
 #define VERIF_CONTRACTS_PRIORITY_QUEUE_H
 #ifndef VERIF_TRACK_ERRORS
 #    error "contracts/priority_queue.h needs VERIF_TRACK_ERRORS"
 #endif
-#include "contracts/array_list.h" /* ISZ, aws_last_error, allocator contracts, AL_ERR_FRAME */
+#include "contracts/array_list.h" /* ISZ, RET/OLD/PEQ, allocator contracts, AL_ERR_FRAME */
 #include <aws/common/priority_queue.h>
 
 #ifndef VERIF_PQ_N
@@ -71,10 +82,9 @@
 #endif
 
 /* ---- ghost state ---- */
-bool g_desc;                                   /* comparator: descending instead of ascending order of the key byte */
-uint8_t g_shift;                               /* comparator: keys that agree in their upper 8-g_shift bits compare equal */
-struct aws_priority_queue_node g_nodes[PQK];   /* handle pool (arena, DESIGN §4.5) */
-struct aws_allocator g_pq_alloc;               /* the allocator of dynamic queues (only its address matters) */
+bool g_desc;                                 /* comparator: descending instead of ascending order of the key byte */
+struct aws_priority_queue_node g_nodes[PQK]; /* handle pool (arena, DESIGN §4.5) */
+struct aws_allocator g_pq_alloc;             /* the allocator of dynamic queues (only its address matters) */
 size_t g_pj;
 size_t g_ki, g_pos;
 uint8_t g_ki_key, g_ki_b;
@@ -82,9 +92,15 @@ struct aws_priority_queue_node *g_ki_bp;
 size_t g_h, g_h_idx;
 bool g_h_inq;
 uint8_t g_h_key, g_h_b;
-bool g_moved;           /* sift: whether the element has to move */
+size_t g_out;
+uint8_t g_out_b;
+bool g_moved; /* sift: whether the element has to move */
+/* pre-state of the struct fields */
+size_t g0_len, g0_cur, g0_bpcur, g0_idx;
+void *g0_data, *g0_bpdata;
+struct aws_allocator *g0_alloc;
 
-#define PQ_RANKOF(k) ((uint8_t)((uint8_t)(g_desc ? ~(k) : (k)) >> (g_shift & 7)))
+#define PQ_RANKOF(k) ((uint8_t)(g_desc ? ~(k) : (k)))
 int pq_rank_cmp(const void *a, const void *b) {
     int ra = PQ_RANKOF(*(const uint8_t *)a), rb = PQ_RANKOF(*(const uint8_t *)b);
     return ra - rb;
@@ -154,14 +170,21 @@ int pq_rank_cmp(const void *a, const void *b) {
 #define PQ_DESC(x, k)                                                                                                  \
     ((k) == (x) || (((k) + 1) >> 1) == (x) + 1 || (((k) + 1) >> 2) == (x) + 1 || (((k) + 1) >> 3) == (x) + 1)
 
-/* ---- witnesses pinned to the pre-state ---- */
-/* kimax: largest meaningful ghost slot (length-1 for everything but push, where the slot `length` is the new element) */
-#define PQ_REQ_WITNESSES(q)                                                                                            \
-    __CPROVER_requires(g_on ==> g_pj < ISZ && g_h < PQK && g_pos == g_ki)                                              \
-    __CPROVER_requires(g_on && g_ki < PQ_LEN(q) ==> g_ki_key == PQ_KEY(q, g_ki) && g_ki_b == PQ_B(q, g_ki, g_pj) &&    \
-                                                     g_ki_bp == (PQ_BP_LIVE(q) ? PQ_BPA(q)[g_ki] : NULL))              \
-    __CPROVER_requires(g_on ==> g_h_idx == g_nodes[g_h].current_index && g_h_inq == PQ_INQ(q, g_h))                    \
-    __CPROVER_requires(g_on && g_h_inq ==> g_h_key == PQ_KEY(q, g_h_idx) && g_h_b == PQ_B(q, g_h_idx, g_pj))
+/* ---- the two ways a clause list is used as a CBMC contract ---- */
+#define PQ_REQ(name, x) __CPROVER_requires(x)
+#define PQ_ENS(name, x) __CPROVER_ensures(x)
+
+/* ---- witnesses and field values pinned to the pre-state ---- */
+#define PQ_C_PINS(REQ, q)                                                                                              \
+    REQ("pin", g0_len == PQ_LEN(q) && g0_cur == PQ_CUR(q) && g0_data == (q)->container.data &&                         \
+                   g0_alloc == (q)->container.alloc && g0_bpdata == (q)->backpointers.data &&                          \
+                   g0_bpcur == (q)->backpointers.current_size)                                                         \
+    REQ("pin", g_on ==> g_pj < ISZ && g_h < PQK && g_pos == g_ki)                                                      \
+    REQ("pin", g_on && g_ki < PQ_LEN(q) ==> g_ki_key == PQ_KEY(q, g_ki) && g_ki_b == PQ_B(q, g_ki, g_pj) &&            \
+                                                g_ki_bp == (PQ_BP_LIVE(q) ? PQ_BPA(q)[g_ki] : NULL))                   \
+    REQ("pin", g_on ==> g_h_idx == g_nodes[g_h].current_index && g_h_inq == PQ_INQ(q, g_h))                            \
+    REQ("pin", g_on && g_h_inq ==> g_h_key == PQ_KEY(q, g_h_idx) && g_h_b == PQ_B(q, g_h_idx, g_pj))                   \
+    REQ("pin", g_on && g_out < PQ_CUR(q) ==> g_out_b == PQ_DATA(q)[g_out])
 /* slot i holds the ghost element (and its handle, if the queue has handles) */
 #define PQ_SLOT_IS(q, i) (PQ_KEY(q, i) == g_ki_key && PQ_B(q, i, g_pj) == g_ki_b && (PQ_BP_LIVE(q) ==> PQ_BPA(q)[i] == g_ki_bp))
 /* the ghost slot is exactly as before (element and handle), and the cursor did not move */
@@ -172,201 +195,258 @@ int pq_rank_cmp(const void *a, const void *b) {
 #define PQ_H_TRACKS(q)                                                                                                 \
     (PQ_INQ(q, g_h) && PQ_KEY(q, g_nodes[g_h].current_index) == g_h_key && PQ_B(q, g_nodes[g_h].current_index, g_pj) == g_h_b)
 #define PQ_H_UNTOUCHED (g_nodes[g_h].current_index == g_h_idx)
-#define PQ_ENS_NO_HANDLE_LEAVES(q)                                                                                     \
-    __CPROVER_ensures(g_on && g_h_inq ==> PQ_H_TRACKS(q))                                                              \
-    __CPROVER_ensures(g_on && !g_h_inq ==> PQ_H_UNTOUCHED && !PQ_INQ(q, g_h))
+/* struct fields that only growth / clean-up may change */
+#define PQ_FIELDS_KEPT(q)                                                                                              \
+    (PQ_CUR(q) == g0_cur && (q)->container.data == g0_data && (q)->container.alloc == g0_alloc &&                      \
+     (q)->backpointers.data == g0_bpdata && (q)->backpointers.current_size == g0_bpcur)
+/* storage byte g_out is as before */
+#define PQ_OUT_SAME(q) (PQ_DATA(q)[g_out] == g_out_b)
 
-/* ---- frames ---- */
+/* what every operation that takes no element out and puts none in promises about handles */
+#define PQ_C_NO_HANDLE_LEAVES(ENS, q)                                                                                  \
+    ENS("every handle in the queue keeps identifying its own element", g_on && g_h_inq ==> PQ_H_TRACKS(q))            \
+    ENS("handles outside the queue are untouched", g_on && !g_h_inq ==> PQ_H_UNTOUCHED && !PQ_INQ(q, g_h))
+
+/* ---- frames (documentation: not checked, see head comment) ---- */
 #define PQ_A_ELEMS(q) PQ_LEN(q) > 0 : __CPROVER_object_upto(PQ_DATA(q), PQ_LEN(q) * ISZ)
 #define PQ_A_BPS(q) PQ_BP_LIVE(q) && PQ_LEN(q) > 0 : __CPROVER_object_upto((uint8_t *)(q)->backpointers.data, PQ_LEN(q) * PQ_PSZ)
 #define PQ_A_POOL(q) PQ_BP_LIVE(q) : __CPROVER_object_whole(g_nodes)
-
-/* ------------------------------------------------------------------ s_swap */
-/* Exchanges two elements together with their handles and rewrites the handles' indices; nothing else moves; the
- * ghost cursor follows (see the hook in the unit).  Written with __CPROVER_old; two flavours because old(bp[a]) is
- * evaluated unguarded: queue with / without a handle array (enforced as s_swap/pq_swap_live, s_swap/pq_swap_plain). */
-#define PQ_SWAP_COMMON(queue, a, b)                                                                                    \
-    __CPROVER_requires(PQ_STATE(queue))                                                                                \
-    __CPROVER_requires(a < PQ_LEN(queue) && b < PQ_LEN(queue) && a != b && g_pj < ISZ)                                 \
-    __CPROVER_assigns(__CPROVER_object_upto(PQ_DATA(queue) + a * ISZ, ISZ), __CPROVER_object_upto(PQ_DATA(queue) + b * ISZ, ISZ), g_pos) \
-    __CPROVER_ensures(PQ_STATE(queue))                                                                                 \
-    __CPROVER_ensures(PQ_KEY(queue, a) == OLD(PQ_KEY(queue, b)) && PQ_KEY(queue, b) == OLD(PQ_KEY(queue, a)))          \
-    __CPROVER_ensures(PQ_B(queue, a, g_pj) == OLD(PQ_B(queue, b, g_pj)) && PQ_B(queue, b, g_pj) == OLD(PQ_B(queue, a, g_pj))) \
-    __CPROVER_ensures(g_pos == (OLD(g_pos) == a ? b : (OLD(g_pos) == b ? a : OLD(g_pos))))
-
-void pq_swap_plain(struct aws_priority_queue *queue, size_t a, size_t b)
-__CPROVER_requires(!PQ_BP_LIVE(queue))
-PQ_SWAP_COMMON(queue, a, b)
-;
-
-void pq_swap_live(struct aws_priority_queue *queue, size_t a, size_t b)
-__CPROVER_requires(PQ_BP_LIVE(queue))
-PQ_SWAP_COMMON(queue, a, b)
-__CPROVER_assigns(PQ_BPA(queue)[a], PQ_BPA(queue)[b])
-__CPROVER_assigns(PQ_BPA(queue)[a] != NULL : PQ_BPA(queue)[a]->current_index)
-__CPROVER_assigns(PQ_BPA(queue)[b] != NULL : PQ_BPA(queue)[b]->current_index)
-/* the handles travel with their elements (and, by PQ_STATE, say so: bp[i]->current_index == i) */
-__CPROVER_ensures(PEQ(PQ_BPA(queue)[a], OLD(PQ_BPA(queue)[b])) && PEQ(PQ_BPA(queue)[b], OLD(PQ_BPA(queue)[a])))
-;
-
-/* ------------------------------------------------------------------ sift */
 #define PQ_A_SIFT(q)                                                                                                   \
     __CPROVER_assigns(PQ_A_ELEMS(q))                                                                                   \
     __CPROVER_assigns(PQ_A_BPS(q))                                                                                     \
     __CPROVER_assigns(PQ_A_POOL(q))                                                                                    \
     __CPROVER_assigns(g_pos)
 
+/* ------------------------------------------------------------------ s_swap */
+/* exchanges two elements together with their handles and rewrites the handles' indices; nothing else moves */
+#define PQ_C_swap(REQ, ENS, queue, a, b)                                                                               \
+    REQ("state", PQ_STATE(queue))                                                                                      \
+    REQ("indices", a < PQ_LEN(queue) && b < PQ_LEN(queue) && a != b)                                                   \
+    PQ_C_PINS(REQ, queue)                                                                                              \
+    REQ("pin", g_on ==> g_ki < PQ_LEN(queue))                                                                          \
+    ENS("representation invariant (shape, handles) kept", PQ_STATE(queue) && PQ_FIELDS_KEPT(queue) && PQ_LEN(queue) == g0_len) \
+    ENS("the element (and handle) of every slot is where the transposition (a b) puts it",                             \
+        g_on ==> g_pos == (g_ki == a ? b : (g_ki == b ? a : g_ki)) && PQ_CURSOR_OK(queue))                             \
+    PQ_C_NO_HANDLE_LEAVES(ENS, queue)                                                                                  \
+    ENS("the handles of a and b have exchanged their index, all others keep it",                                       \
+        g_on && g_h_inq ==> g_nodes[g_h].current_index == (g_h_idx == a ? b : (g_h_idx == b ? a : g_h_idx)))           \
+    ENS("storage outside slots a and b untouched",                                                                     \
+        g_on && g_out < g0_cur && !(g_out >= a * ISZ && g_out < a * ISZ + ISZ) && !(g_out >= b * ISZ && g_out < b * ISZ + ISZ) ==> PQ_OUT_SAME(queue))
+
+static void s_swap(struct aws_priority_queue *queue, size_t a, size_t b)
+PQ_C_swap(PQ_REQ, PQ_ENS, queue, a, b)
+__CPROVER_assigns(__CPROVER_object_upto(PQ_DATA(queue) + a * ISZ, ISZ), __CPROVER_object_upto(PQ_DATA(queue) + b * ISZ, ISZ), g_pos)
+__CPROVER_assigns(PQ_BP_LIVE(queue) : PQ_BPA(queue)[a], PQ_BPA(queue)[b])
+__CPROVER_assigns(PQ_BP_LIVE(queue) && PQ_BPA(queue)[a] != NULL : PQ_BPA(queue)[a]->current_index)
+__CPROVER_assigns(PQ_BP_LIVE(queue) && PQ_BPA(queue)[b] != NULL : PQ_BPA(queue)[b]->current_index)
+;
+
+/* ------------------------------------------------------------------ sift */
+#define PQ_C_SIFT_COMMON(ENS, queue)                                                                                   \
+    ENS("every element (with its handle) is still stored, at the cursor", g_on ==> PQ_CURSOR_OK(queue))                \
+    PQ_C_NO_HANDLE_LEAVES(ENS, queue)                                                                                  \
+    ENS("storage outside the live elements untouched", g_on && g_out >= g0_len * ISZ && g_out < g0_cur ==> PQ_OUT_SAME(queue))
+
 /* precondition: only the order below `root` may be broken.  Restores heap order; every element (with its handle) is
  * still stored; slots outside the subtree of root untouched; result says whether the element moved. */
+#define PQ_C_sift_down(REQ, ENS, queue, root, ret)                                                                     \
+    REQ("state", PQ_STATE(queue))                                                                                      \
+    REQ("index", root < PQ_LEN(queue))                                                                                 \
+    REQ("heap order except below root", PQ_HO_EXCEPT_DOWN(queue, root))                                                \
+    PQ_C_PINS(REQ, queue)                                                                                              \
+    REQ("pin", g_on ==> g_ki < PQ_LEN(queue) && g_moved == PQ_DOWN_MOVES(queue, root))                                 \
+    ENS("representation invariant (shape, handles) kept", PQ_STATE(queue) && PQ_FIELDS_KEPT(queue) && PQ_LEN(queue) == g0_len) \
+    ENS("heap order restored", PQ_HO(queue))                                                                           \
+    ENS("result says whether the element moved", g_on ==> ret == g_moved)                                              \
+    ENS("slots outside the subtree of root (all slots if nothing moves) are untouched",                                \
+        g_on && (!PQ_DESC(root, g_ki) || !g_moved) ==> PQ_SLOT_SAME(queue))                                            \
+    PQ_C_SIFT_COMMON(ENS, queue)
+
 static bool s_sift_down(struct aws_priority_queue *queue, size_t root)
-__CPROVER_requires(PQ_STATE(queue))
-__CPROVER_requires(root < PQ_LEN(queue))
-__CPROVER_requires(PQ_HO_EXCEPT_DOWN(queue, root))
-PQ_REQ_WITNESSES(queue)
-__CPROVER_requires(g_on ==> g_ki < PQ_LEN(queue) && g_moved == PQ_DOWN_MOVES(queue, root))
+PQ_C_sift_down(PQ_REQ, PQ_ENS, queue, root, RET)
 PQ_A_SIFT(queue)
-__CPROVER_ensures(PQ_STATE(queue) && PQ_HO(queue))
-__CPROVER_ensures(g_on ==> RET == g_moved)
-__CPROVER_ensures(g_on ==> PQ_CURSOR_OK(queue))
-__CPROVER_ensures(g_on && (!PQ_DESC(root, g_ki) || !g_moved) ==> PQ_SLOT_SAME(queue))
-PQ_ENS_NO_HANDLE_LEAVES(queue)
 ;
 
 /* precondition: heap order except at `index` (the code's own s_sift_either calls it like that).  If the element moves
  * up the heap order is restored; if not, nothing changes and only the order below index may still be broken. */
+#define PQ_C_sift_up(REQ, ENS, queue, index, ret)                                                                      \
+    REQ("state", PQ_STATE(queue))                                                                                      \
+    REQ("index", index < PQ_LEN(queue))                                                                                \
+    REQ("heap order except at index", PQ_HO_EXCEPT(queue, index))                                                      \
+    PQ_C_PINS(REQ, queue)                                                                                              \
+    REQ("pin", g_on ==> g_ki < PQ_LEN(queue) && g_moved == PQ_UP_MOVES(queue, index))                                  \
+    ENS("representation invariant (shape, handles) kept", PQ_STATE(queue) && PQ_FIELDS_KEPT(queue) && PQ_LEN(queue) == g0_len) \
+    ENS("heap order restored if the element moved", ret ==> PQ_HO(queue))                                              \
+    ENS("otherwise only the order below index may be broken", !ret ==> PQ_HO_EXCEPT_DOWN(queue, index))                \
+    ENS("result says whether the element moved", g_on ==> ret == g_moved)                                              \
+    ENS("slots that are not index or an ancestor of it (all slots if nothing moves) are untouched",                    \
+        g_on && (!PQ_DESC(g_ki, index) || !g_moved) ==> PQ_SLOT_SAME(queue))                                           \
+    PQ_C_SIFT_COMMON(ENS, queue)
+
 static bool s_sift_up(struct aws_priority_queue *queue, size_t index)
-__CPROVER_requires(PQ_STATE(queue))
-__CPROVER_requires(index < PQ_LEN(queue))
-__CPROVER_requires(PQ_HO_EXCEPT(queue, index))
-PQ_REQ_WITNESSES(queue)
-__CPROVER_requires(g_on ==> g_ki < PQ_LEN(queue) && g_moved == PQ_UP_MOVES(queue, index))
+PQ_C_sift_up(PQ_REQ, PQ_ENS, queue, index, RET)
 PQ_A_SIFT(queue)
-__CPROVER_ensures(PQ_STATE(queue))
-__CPROVER_ensures(RET ==> PQ_HO(queue))
-__CPROVER_ensures(!RET ==> PQ_HO_EXCEPT_DOWN(queue, index))
-__CPROVER_ensures(g_on ==> RET == g_moved)
-__CPROVER_ensures(g_on ==> PQ_CURSOR_OK(queue))
-/* only index and its ancestors can change */
-__CPROVER_ensures(g_on && (!PQ_DESC(g_ki, index) || !g_moved) ==> PQ_SLOT_SAME(queue))
-PQ_ENS_NO_HANDLE_LEAVES(queue)
 ;
 
+#define PQ_C_sift_either(REQ, ENS, queue, index)                                                                       \
+    REQ("state", PQ_STATE(queue))                                                                                      \
+    REQ("index", index < PQ_LEN(queue))                                                                                \
+    REQ("heap order except at index", PQ_HO_EXCEPT(queue, index))                                                      \
+    PQ_C_PINS(REQ, queue)                                                                                              \
+    REQ("pin", g_on ==> g_ki < PQ_LEN(queue))                                                                          \
+    ENS("representation invariant (shape, handles) kept", PQ_STATE(queue) && PQ_FIELDS_KEPT(queue) && PQ_LEN(queue) == g0_len) \
+    ENS("heap order restored", PQ_HO(queue))                                                                           \
+    ENS("slots that are neither above nor below index are untouched",                                                  \
+        g_on && !PQ_DESC(g_ki, index) && !PQ_DESC(index, g_ki) ==> PQ_SLOT_SAME(queue))                                \
+    PQ_C_SIFT_COMMON(ENS, queue)
+
 static void s_sift_either(struct aws_priority_queue *queue, size_t index)
-__CPROVER_requires(PQ_STATE(queue))
-__CPROVER_requires(index < PQ_LEN(queue))
-__CPROVER_requires(PQ_HO_EXCEPT(queue, index))
-PQ_REQ_WITNESSES(queue)
-__CPROVER_requires(g_on ==> g_ki < PQ_LEN(queue))
+PQ_C_sift_either(PQ_REQ, PQ_ENS, queue, index)
 PQ_A_SIFT(queue)
-__CPROVER_ensures(PQ_STATE(queue) && PQ_HO(queue))
-__CPROVER_ensures(g_on ==> PQ_CURSOR_OK(queue))
-__CPROVER_ensures(g_on && !PQ_DESC(g_ki, index) && !PQ_DESC(index, g_ki) ==> PQ_SLOT_SAME(queue))
-PQ_ENS_NO_HANDLE_LEAVES(queue)
 ;
 
 /* ------------------------------------------------------------------ removal */
+/* ok = success condition, oidx = removed slot, both over pinned pre-state values */
+#define PQ_C_REMOVED(ENS, q, item, ok, oidx)                                                                           \
+    ENS("representation invariant and heap order kept", PQ_STATE(q) && PQ_HO(q) && PQ_FIELDS_KEPT(q))                  \
+    ENS("size decreases by one exactly on success", PQ_LEN(q) == g0_len - ((ok) ? 1 : 0))                              \
+    ENS("the element handed out is the one that was in the slot",                                                      \
+        g_on && (ok) && g_ki == (oidx) ==> ((uint8_t *)item)[0] == g_ki_key && ((uint8_t *)item)[g_pj] == g_ki_b)      \
+    ENS("every other element (with its handle) is still stored, at the cursor",                                        \
+        g_on && (ok) && g_ki != (oidx) && g_ki < g0_len ==> PQ_CURSOR_OK(q))                                           \
+    ENS("the handle of the removed element is marked not-in-queue",                                                    \
+        g_on && g_h_inq && (ok) && g_h_idx == (oidx) ==> g_nodes[g_h].current_index == SIZE_MAX && !PQ_INQ(q, g_h))    \
+    ENS("every other handle keeps identifying its own element", g_on && g_h_inq && !((ok) && g_h_idx == (oidx)) ==> PQ_H_TRACKS(q)) \
+    ENS("handles outside the queue are untouched", g_on && !g_h_inq ==> PQ_H_UNTOUCHED && !PQ_INQ(q, g_h))             \
+    ENS("refusal changes nothing", g_on && !(ok) ==> (g_ki < PQ_LEN(q) ==> PQ_SLOT_SAME(q)) && PQ_H_UNTOUCHED && (g_out < g0_cur ==> PQ_OUT_SAME(q))) \
+    ENS("storage outside the live elements untouched", g_on && g_out >= g0_len * ISZ && g_out < g0_cur ==> PQ_OUT_SAME(q))
 #define PQ_A_REMOVE(q, ok)                                                                                             \
     __CPROVER_assigns((ok) : __CPROVER_object_upto((uint8_t *)item, ISZ), (q)->container.length, g_pos)                \
     __CPROVER_assigns((ok) && PQ_LEN(q) > 0 : __CPROVER_object_upto(PQ_DATA(q), PQ_LEN(q) * ISZ))                      \
     __CPROVER_assigns((ok) && PQ_BP_LIVE(q) : (q)->backpointers.length, __CPROVER_object_whole(g_nodes))               \
     __CPROVER_assigns((ok) && PQ_BP_LIVE(q) && PQ_LEN(q) > 0 : __CPROVER_object_upto((uint8_t *)(q)->backpointers.data, PQ_LEN(q) * PQ_PSZ))
-/* ok = success condition over OLD values, oidx = removed slot over OLD values */
-#define PQ_ENS_REMOVE(q, ok, oidx)                                                                                     \
-    __CPROVER_ensures(PQ_STATE(q) && PQ_HO(q))                                                                         \
-    __CPROVER_ensures(PQ_LEN(q) == OLD(PQ_LEN(q)) - ((ok) ? 1 : 0))                                                    \
-    __CPROVER_ensures(PQ_CUR(q) == OLD(PQ_CUR(q)))                                                                     \
-    /* the element handed out is the one that was in the slot; every other element (with its handle) is still stored */ \
-    __CPROVER_ensures(g_on && (ok) && g_ki == (oidx) ==> ((uint8_t *)item)[0] == g_ki_key && ((uint8_t *)item)[g_pj] == g_ki_b) \
-    __CPROVER_ensures(g_on && (ok) && g_ki != (oidx) && g_ki < OLD(PQ_LEN(q)) ==> PQ_CURSOR_OK(q))                     \
-    /* its handle is marked not-in-queue; every other handle keeps identifying its own element */                     \
-    __CPROVER_ensures(g_on && g_h_inq && (ok) && g_h_idx == (oidx) ==> g_nodes[g_h].current_index == SIZE_MAX && !PQ_INQ(q, g_h)) \
-    __CPROVER_ensures(g_on && g_h_inq && !((ok) && g_h_idx == (oidx)) ==> PQ_H_TRACKS(q))                              \
-    __CPROVER_ensures(g_on && !g_h_inq ==> PQ_H_UNTOUCHED && !PQ_INQ(q, g_h))                                          \
-    /* refusal changes nothing */                                                                                      \
-    __CPROVER_ensures(g_on && !(ok) && g_ki < PQ_LEN(q) ==> PQ_SLOT_SAME(q))                                           \
-    __CPROVER_ensures(g_on && !(ok) && g_h_inq ==> PQ_H_UNTOUCHED)
+
+#define PQ_C_remove_node(REQ, ENS, queue, item, item_index, ret)                                                       \
+    REQ("state", PQ_STATE(queue) && PQ_HO(queue))                                                                      \
+    REQ("item", __CPROVER_w_ok(item, ISZ))                                                                             \
+    REQ("index", item_index < PQ_LEN(queue))                                                                           \
+    PQ_C_PINS(REQ, queue)                                                                                              \
+    ENS("succeeds", ret == AWS_OP_SUCCESS)                                                                             \
+    PQ_C_REMOVED(ENS, queue, item, 1, item_index)
 
 static int s_remove_node(struct aws_priority_queue *queue, void *item, size_t item_index)
-__CPROVER_requires(PQ_STATE(queue) && PQ_HO(queue))
-__CPROVER_requires(__CPROVER_w_ok(item, ISZ))
-__CPROVER_requires(item_index < PQ_LEN(queue))
-PQ_REQ_WITNESSES(queue)
+PQ_C_remove_node(PQ_REQ, PQ_ENS, queue, item, item_index, RET)
 PQ_A_REMOVE(queue, 1)
-__CPROVER_ensures(RET == AWS_OP_SUCCESS)
-PQ_ENS_REMOVE(queue, 1, item_index)
 ;
 
 /* pop: refuses an empty queue; otherwise hands out slot 0, which is a minimum of everything stored */
+#define PQ_C_pop(REQ, ENS, queue, item, ret)                                                                           \
+    REQ("state", PQ_STATE(queue) && PQ_HO(queue))                                                                      \
+    REQ("item", __CPROVER_w_ok(item, ISZ))                                                                             \
+    PQ_C_PINS(REQ, queue)                                                                                              \
+    ENS("succeeds exactly on a non-empty queue", (ret == AWS_OP_SUCCESS) == (g0_len > 0) && (ret == AWS_OP_SUCCESS || ret == AWS_OP_ERR)) \
+    ENS("empty queue refused with PRIORITY_QUEUE_EMPTY", ret != AWS_OP_SUCCESS ==> g_last_error == AWS_ERROR_PRIORITY_QUEUE_EMPTY) \
+    PQ_C_REMOVED(ENS, queue, item, g0_len > 0, 0)                                                                      \
+    ENS("the popped element is a minimum of everything that was stored",                                               \
+        g_on && ret == AWS_OP_SUCCESS && g_ki < g0_len ==> PQ_RANKOF(((uint8_t *)item)[0]) <= PQ_RANKOF(g_ki_key))
+
 int aws_priority_queue_pop(struct aws_priority_queue *queue, void *item)
-__CPROVER_requires(PQ_STATE(queue) && PQ_HO(queue))
-__CPROVER_requires(__CPROVER_w_ok(item, ISZ))
-PQ_REQ_WITNESSES(queue)
+PQ_C_pop(PQ_REQ, PQ_ENS, queue, item, RET)
 PQ_A_REMOVE(queue, PQ_LEN(queue) > 0)
 AL_ERR_FRAME(PQ_LEN(queue) == 0)
-__CPROVER_ensures(RET == AWS_OP_SUCCESS || RET == AWS_OP_ERR)
-__CPROVER_ensures((RET == AWS_OP_SUCCESS) == (OLD(PQ_LEN(queue)) > 0))
-__CPROVER_ensures(RET != AWS_OP_SUCCESS ==> g_last_error == AWS_ERROR_PRIORITY_QUEUE_EMPTY)
-__CPROVER_ensures(RET == AWS_OP_SUCCESS ==> AL_NO_ERR_RAISED)
-PQ_ENS_REMOVE(queue, OLD(PQ_LEN(queue)) > 0, 0)
-__CPROVER_ensures(g_on && RET == AWS_OP_SUCCESS && g_ki < OLD(PQ_LEN(queue)) ==> PQ_RANKOF(((uint8_t *)item)[0]) <= PQ_RANKOF(g_ki_key))
 ;
 
 /* remove by handle.  The handle is a pool handle that is in the queue, or one whose index field is not a slot of the
  * queue (SIZE_MAX after pop/remove/clear/node_init: "stale"), or any handle when the queue never had handles.
  * success <=> the handle is in the queue; a stale handle is refused with BAD_NODE and nothing changes. */
-#define PQ_REMOVE_OK_(live, idx, len) ((live) && (idx) < (len))
+#define PQ_REMOVE_OK (g0_bpdata != NULL && g0_idx < g0_len)
+#define PQ_C_remove(REQ, ENS, queue, item, node, ret)                                                                  \
+    REQ("state", PQ_STATE(queue) && PQ_HO(queue))                                                                      \
+    REQ("item", __CPROVER_w_ok(item, ISZ))                                                                             \
+    REQ("handle is a pool handle", PQ_IN_POOL(node))                                                                   \
+    REQ("handle is in the queue, or stale, or the queue never had handles",                                            \
+        PQ_INQ_P(queue, node) || !PQ_BP_LIVE(queue) || (node)->current_index >= PQ_LEN(queue))                         \
+    PQ_C_PINS(REQ, queue)                                                                                              \
+    REQ("pin", g0_idx == (node)->current_index)                                                                        \
+    ENS("succeeds exactly when the handle is in the queue", (ret == AWS_OP_SUCCESS) == PQ_REMOVE_OK && (ret == AWS_OP_SUCCESS || ret == AWS_OP_ERR)) \
+    ENS("stale handle refused with PRIORITY_QUEUE_BAD_NODE and left alone",                                            \
+        ret != AWS_OP_SUCCESS ==> g_last_error == AWS_ERROR_PRIORITY_QUEUE_BAD_NODE && (node)->current_index == g0_idx) \
+    ENS("the handle is marked not-in-queue on success", ret == AWS_OP_SUCCESS ==> (node)->current_index == SIZE_MAX)   \
+    PQ_C_REMOVED(ENS, queue, item, PQ_REMOVE_OK, g0_idx)
+
 int aws_priority_queue_remove(struct aws_priority_queue *queue, void *item, const struct aws_priority_queue_node *node)
-__CPROVER_requires(PQ_STATE(queue) && PQ_HO(queue))
-__CPROVER_requires(__CPROVER_w_ok(item, ISZ))
-__CPROVER_requires(PQ_IN_POOL(node))
-__CPROVER_requires(PQ_INQ_P(queue, node) || !PQ_BP_LIVE(queue) || node->current_index >= PQ_LEN(queue))
-PQ_REQ_WITNESSES(queue)
-PQ_A_REMOVE(queue, PQ_REMOVE_OK_(PQ_BP_LIVE(queue), node->current_index, PQ_LEN(queue)))
-AL_ERR_FRAME(!PQ_REMOVE_OK_(PQ_BP_LIVE(queue), node->current_index, PQ_LEN(queue)))
-__CPROVER_ensures(RET == AWS_OP_SUCCESS || RET == AWS_OP_ERR)
-__CPROVER_ensures((RET == AWS_OP_SUCCESS) == PQ_REMOVE_OK_(OLD(queue->backpointers.data) != NULL, OLD(node->current_index), OLD(PQ_LEN(queue))))
-__CPROVER_ensures(RET != AWS_OP_SUCCESS ==> g_last_error == AWS_ERROR_PRIORITY_QUEUE_BAD_NODE && node->current_index == OLD(node->current_index))
-__CPROVER_ensures(RET == AWS_OP_SUCCESS ==> AL_NO_ERR_RAISED && node->current_index == SIZE_MAX)
-PQ_ENS_REMOVE(queue, PQ_REMOVE_OK_(OLD(queue->backpointers.data) != NULL, OLD(node->current_index), OLD(PQ_LEN(queue))), OLD(node->current_index))
+PQ_C_remove(PQ_REQ, PQ_ENS, queue, item, node, RET)
+PQ_A_REMOVE(queue, PQ_BP_LIVE(queue) && node->current_index < PQ_LEN(queue))
+AL_ERR_FRAME(!(PQ_BP_LIVE(queue) && node->current_index < PQ_LEN(queue)))
 ;
 
 /* top: pointer to slot 0 (a minimum), nothing written but *item */
+#define PQ_C_top(REQ, ENS, queue, item, ret)                                                                           \
+    REQ("state", PQ_STATE(queue) && PQ_HO(queue))                                                                      \
+    REQ("item", __CPROVER_w_ok(item, sizeof(*(item))))                                                                 \
+    PQ_C_PINS(REQ, queue)                                                                                              \
+    ENS("succeeds exactly on a non-empty queue", (ret == AWS_OP_SUCCESS) == (g0_len > 0) && (ret == AWS_OP_SUCCESS || ret == AWS_OP_ERR)) \
+    ENS("empty queue refused with PRIORITY_QUEUE_EMPTY", ret != AWS_OP_SUCCESS ==> g_last_error == AWS_ERROR_PRIORITY_QUEUE_EMPTY) \
+    ENS("result points at slot 0", ret == AWS_OP_SUCCESS ==> *(item) == (queue)->container.data)                       \
+    ENS("slot 0 is a minimum of everything stored",                                                                    \
+        g_on && ret == AWS_OP_SUCCESS && g_ki < g0_len ==> PQ_RANK(queue, 0) <= PQ_RANKOF(g_ki_key))                   \
+    ENS("queue unchanged", PQ_STATE(queue) && PQ_HO(queue) && PQ_FIELDS_KEPT(queue) && PQ_LEN(queue) == g0_len &&      \
+                           (g_on ==> (g_ki < g0_len ==> PQ_SLOT_SAME(queue)) && PQ_H_UNTOUCHED && (g_out < g0_cur ==> PQ_OUT_SAME(queue))))
+
 int aws_priority_queue_top(const struct aws_priority_queue *queue, void **item)
-__CPROVER_requires(PQ_STATE(queue) && PQ_HO(queue))
-__CPROVER_requires(__CPROVER_w_ok(item, sizeof(*item)))
-PQ_REQ_WITNESSES(queue)
+PQ_C_top(PQ_REQ, PQ_ENS, queue, item, RET)
 __CPROVER_assigns(PQ_LEN(queue) > 0 : *item)
 AL_ERR_FRAME(PQ_LEN(queue) == 0)
-__CPROVER_ensures(RET == AWS_OP_SUCCESS || RET == AWS_OP_ERR)
-__CPROVER_ensures((RET == AWS_OP_SUCCESS) == (PQ_LEN(queue) > 0))
-__CPROVER_ensures(RET != AWS_OP_SUCCESS ==> g_last_error == AWS_ERROR_PRIORITY_QUEUE_EMPTY)
-__CPROVER_ensures(RET == AWS_OP_SUCCESS ==> AL_NO_ERR_RAISED && *item == queue->container.data)
-__CPROVER_ensures(g_on && RET == AWS_OP_SUCCESS && g_ki < PQ_LEN(queue) ==> PQ_RANKOF(*(uint8_t *)*item) <= PQ_RANKOF(g_ki_key))
 ;
 
 /* ------------------------------------------------------------------ push */
-#define PQ_FULL_(len, cur) ((len) * ISZ + ISZ > (cur))
-#define PQ_PUSH_OK_(dyn, len, cur, bp) ((dyn) || (!PQ_FULL_(len, cur) && (bp) == NULL))
-#define PQ_FULL(q) PQ_FULL_(PQ_LEN(q), PQ_CUR(q))
-#define PQ_PUSH_OK(q, bp) PQ_PUSH_OK_(PQ_DYN(q), PQ_LEN(q), PQ_CUR(q), bp)
-#define PQ_OLD_FULL(q) PQ_FULL_(OLD(PQ_LEN(q)), OLD(PQ_CUR(q)))
-#define PQ_OLD_DYN(q) (OLD((q)->container.alloc) != NULL)
-#define PQ_OLD_PUSH_OK(q, bp) PQ_PUSH_OK_(PQ_OLD_DYN(q), OLD(PQ_LEN(q)), OLD(PQ_CUR(q)), bp)
-#define PQ_OLD_BP_LIVE(q) (OLD((q)->backpointers.data) != NULL)
+#define PQ_FULL0 (g0_len * ISZ + ISZ > g0_cur)
+#define PQ_DYN0 (g0_alloc != NULL)
+#define PQ_PUSH_OK(bp) (PQ_DYN0 || (!PQ_FULL0 && (bp) == NULL))
+#define PQ_FULL(q) (PQ_LEN(q) * ISZ + ISZ > PQ_CUR(q))
 
 /* bp: the handle expression (NULL for plain push).  The ghost slot g_ki ranges over the old slots AND the slot
  * `old length`, which stands for the pushed element.
  * success <=> dynamic queue, or static queue with room and no handle.  A full static queue refuses with
  * LIST_EXCEEDS_MAX_SIZE, a static queue refuses a handle with UNSUPPORTED_OPERATION (after rolling the element back);
  * either way every slot and every handle are as before. */
-#define PQ_PUSH_CONTRACT(q, bp)                                                                                        \
-    __CPROVER_requires(PQ_STATE(q) && PQ_HO(q))                                                                        \
-    __CPROVER_requires(PQ_LEN(q) < PQN && PQ_CUR(q) <= PQ_CAPMAX * ISZ && (q)->backpointers.current_size <= PQ_CAPMAX * PQ_PSZ) \
-    __CPROVER_requires(__CPROVER_r_ok(item, ISZ))                                                                      \
-    PQ_REQ_WITNESSES(q)                                                                                                \
-    __CPROVER_requires(g_on ==> g_ki <= PQ_LEN(q))                                                                     \
-    __CPROVER_requires(g_on && g_ki == PQ_LEN(q) ==> g_ki_key == ((const uint8_t *)item)[0] &&                         \
-                                                      g_ki_b == ((const uint8_t *)item)[g_pj] && g_ki_bp == (bp))      \
+#define PQ_C_push(REQ, ENS, q, item, bp, ret)                                                                          \
+    REQ("state", PQ_STATE(q) && PQ_HO(q))                                                                              \
+    REQ("bound", PQ_LEN(q) < PQN && PQ_CUR(q) <= PQ_CAPMAX * ISZ && (q)->backpointers.current_size <= PQ_CAPMAX * PQ_PSZ) \
+    REQ("item", __CPROVER_r_ok(item, ISZ))                                                                             \
+    REQ("new handle is a pool handle that is not in the queue", (bp) == NULL || (PQ_IN_POOL(bp) && !PQ_INQ_P(q, bp)))  \
+    PQ_C_PINS(REQ, q)                                                                                                  \
+    REQ("pin", g_on ==> g_ki <= PQ_LEN(q))                                                                             \
+    REQ("pin", g_on && g_ki == PQ_LEN(q) ==> g_ki_key == ((const uint8_t *)item)[0] &&                                 \
+                                                 g_ki_b == ((const uint8_t *)item)[g_pj] && g_ki_bp == (bp))           \
+    ENS("succeeds exactly for a dynamic queue, or a static queue with room and no handle",                             \
+        (ret == AWS_OP_SUCCESS) == PQ_PUSH_OK(bp) && (ret == AWS_OP_SUCCESS || ret == AWS_OP_ERR))                     \
+    ENS("full static queue refuses with LIST_EXCEEDS_MAX_SIZE", ret != AWS_OP_SUCCESS && PQ_FULL0 ==> g_last_error == AWS_ERROR_LIST_EXCEEDS_MAX_SIZE) \
+    ENS("static queue refuses a handle with UNSUPPORTED_OPERATION", ret != AWS_OP_SUCCESS && !PQ_FULL0 ==> g_last_error == AWS_ERROR_UNSUPPORTED_OPERATION) \
+    ENS("representation invariant and heap order kept", PQ_STATE(q) && PQ_HO(q))                                       \
+    ENS("size increases by one exactly on success", PQ_LEN(q) == g0_len + (ret == AWS_OP_SUCCESS ? 1 : 0))             \
+    ENS("storage doubles (or becomes one element) when a dynamic queue is full, otherwise stays",                      \
+        PQ_DYN0 && PQ_FULL0 ? PQ_CUR(q) == (g0_cur * 2 > (g0_len + 1) * ISZ ? g0_cur * 2 : (g0_len + 1) * ISZ)         \
+                            : (PQ_CUR(q) == g0_cur && (q)->container.data == g0_data))                                 \
+    ENS("allocator kept", (q)->container.alloc == g0_alloc)                                                            \
+    ENS("the handle array appears with the first handle and never goes away",                                          \
+        PQ_BP_LIVE(q) == (g0_bpdata != NULL || (ret == AWS_OP_SUCCESS && (bp) != NULL)))                               \
+    ENS("every old element and the pushed one (with their handles, none for old elements if the handle array is new) are stored, at the cursor", \
+        g_on && ret == AWS_OP_SUCCESS ==> PQ_CURSOR_OK(q))                                                             \
+    ENS("the new handle identifies the pushed element",                                                                \
+        g_on && ret == AWS_OP_SUCCESS && (bp) != NULL ==>                                                              \
+            PQ_INQ_P(q, bp) && PQ_KEY(q, (bp)->current_index) == ((const uint8_t *)item)[0] &&                         \
+                PQ_B(q, (bp)->current_index, g_pj) == ((const uint8_t *)item)[g_pj])                                   \
+    ENS("every handle in the queue keeps identifying its own element", g_on && g_h_inq ==> PQ_H_TRACKS(q))            \
+    ENS("handles outside the queue (other than the new one) are untouched",                                            \
+        g_on && !g_h_inq && !(ret == AWS_OP_SUCCESS && (bp) == &g_nodes[g_h]) ==> PQ_H_UNTOUCHED && !PQ_INQ(q, g_h))   \
+    ENS("refusal changes nothing",                                                                                     \
+        g_on && ret != AWS_OP_SUCCESS ==> (g_ki < PQ_LEN(q) ==> PQ_SLOT_SAME(q)) && PQ_H_UNTOUCHED &&                  \
+                                              (g_out < g0_len * ISZ ==> PQ_OUT_SAME(q)) && (q)->backpointers.data == g0_bpdata) \
+    ENS("storage beyond the new element untouched when nothing grows",                                                 \
+        g_on && !PQ_FULL0 && g_out >= g0_len * ISZ + ISZ && g_out < g0_cur ==> PQ_OUT_SAME(q))
+
+#define PQ_A_PUSH(q, bp)                                                                                               \
     __CPROVER_assigns(PQ_DYN(q) || !PQ_FULL(q) : (q)->container.length, g_pos)                                         \
     __CPROVER_assigns(!PQ_FULL(q) : __CPROVER_object_upto(PQ_DATA(q), (PQ_LEN(q) + 1) * ISZ))                          \
     __CPROVER_assigns(PQ_DYN(q) && PQ_FULL(q) : (q)->container.data, (q)->container.current_size)                      \
@@ -374,71 +454,65 @@ __CPROVER_ensures(g_on && RET == AWS_OP_SUCCESS && g_ki < PQ_LEN(queue) ==> PQ_R
     __CPROVER_assigns(PQ_DYN(q) && (PQ_BP_LIVE(q) || (bp) != NULL) : (q)->backpointers, __CPROVER_object_whole(g_nodes)) \
     __CPROVER_assigns(PQ_BP_LIVE(q) : __CPROVER_object_upto((uint8_t *)(q)->backpointers.data, (q)->backpointers.current_size)) \
     __CPROVER_frees(PQ_BP_LIVE(q) : (q)->backpointers.data)                                                            \
-    AL_ERR_FRAME(!PQ_PUSH_OK(q, bp))                                                                                   \
-    __CPROVER_ensures(RET == AWS_OP_SUCCESS || RET == AWS_OP_ERR)                                                      \
-    __CPROVER_ensures((RET == AWS_OP_SUCCESS) == PQ_OLD_PUSH_OK(q, bp))                                                \
-    __CPROVER_ensures(RET != AWS_OP_SUCCESS && PQ_OLD_FULL(q) ==> g_last_error == AWS_ERROR_LIST_EXCEEDS_MAX_SIZE)     \
-    __CPROVER_ensures(RET != AWS_OP_SUCCESS && !PQ_OLD_FULL(q) ==> g_last_error == AWS_ERROR_UNSUPPORTED_OPERATION)    \
-    __CPROVER_ensures(RET == AWS_OP_SUCCESS ==> AL_NO_ERR_RAISED)                                                      \
-    __CPROVER_ensures(PQ_STATE(q) && PQ_HO(q))                                                                         \
-    __CPROVER_ensures(PQ_LEN(q) == OLD(PQ_LEN(q)) + (RET == AWS_OP_SUCCESS ? 1 : 0))                                   \
-    /* storage: doubles (or becomes exactly one element) when a dynamic queue is full, otherwise stays */             \
-    __CPROVER_ensures(PQ_OLD_DYN(q) && PQ_OLD_FULL(q)                                                                  \
-                          ? PQ_CUR(q) == (OLD(PQ_CUR(q)) * 2 > (OLD(PQ_LEN(q)) + 1) * ISZ ? OLD(PQ_CUR(q)) * 2 : (OLD(PQ_LEN(q)) + 1) * ISZ) \
-                          : (PQ_CUR(q) == OLD(PQ_CUR(q)) && (q)->container.data == OLD((q)->container.data)))         \
-    __CPROVER_ensures((q)->container.alloc == OLD((q)->container.alloc))                                               \
-    /* the handle array appears with the first handle and never goes away */                                          \
-    __CPROVER_ensures(PQ_BP_LIVE(q) == (PQ_OLD_BP_LIVE(q) || (RET == AWS_OP_SUCCESS && (bp) != NULL)))                 \
-    /* every old element AND the pushed one (g_ki == old length) is stored, together with its handle (NULL for the   \
-     * old elements when the handle array is created by this call: zero-fill) */                                      \
-    __CPROVER_ensures(g_on && RET == AWS_OP_SUCCESS ==> PQ_CURSOR_OK(q))                                               \
-    /* the new handle identifies the pushed element */                                                                \
-    __CPROVER_ensures(g_on && RET == AWS_OP_SUCCESS && (bp) != NULL ==>                                                \
-                      PQ_INQ_P(q, bp) && PQ_KEY(q, (bp)->current_index) == ((const uint8_t *)item)[0] &&               \
-                      PQ_B(q, (bp)->current_index, g_pj) == ((const uint8_t *)item)[g_pj])                             \
-    /* every handle that was in the queue keeps identifying its element; outside handles are untouched */             \
-    __CPROVER_ensures(g_on && g_h_inq ==> PQ_H_TRACKS(q))                                                              \
-    __CPROVER_ensures(g_on && !g_h_inq && !(RET == AWS_OP_SUCCESS && (bp) == &g_nodes[g_h]) ==> PQ_H_UNTOUCHED && !PQ_INQ(q, g_h)) \
-    /* refusal changes nothing */                                                                                      \
-    __CPROVER_ensures(g_on && RET != AWS_OP_SUCCESS && g_ki < PQ_LEN(q) ==> PQ_SLOT_SAME(q))                           \
-    __CPROVER_ensures(g_on && RET != AWS_OP_SUCCESS && g_h_inq ==> PQ_H_UNTOUCHED)
+    AL_ERR_FRAME(!(PQ_DYN(q) || (!PQ_FULL(q) && (bp) == NULL)))
 
 int aws_priority_queue_push_ref(struct aws_priority_queue *queue, void *item, struct aws_priority_queue_node *backpointer)
-__CPROVER_requires(backpointer == NULL || (PQ_IN_POOL(backpointer) && !PQ_INQ_P(queue, backpointer)))
-PQ_PUSH_CONTRACT(queue, backpointer)
+PQ_C_push(PQ_REQ, PQ_ENS, queue, item, backpointer, RET)
+PQ_A_PUSH(queue, backpointer)
 ;
 
+#define PQ_NO_HANDLE ((struct aws_priority_queue_node *)NULL)
 int aws_priority_queue_push(struct aws_priority_queue *queue, void *item)
-PQ_PUSH_CONTRACT(queue, ((struct aws_priority_queue_node *)NULL))
+PQ_C_push(PQ_REQ, PQ_ENS, queue, item, PQ_NO_HANDLE, RET)
+PQ_A_PUSH(queue, PQ_NO_HANDLE)
 ;
 
 /* ------------------------------------------------------------------ clear */
 /* empties the queue, marks every handle that was in it as not-in-queue, keeps the storage */
+#define PQ_C_clear(REQ, ENS, queue)                                                                                    \
+    REQ("state", PQ_STATE(queue) && PQ_HO(queue))                                                                      \
+    PQ_C_PINS(REQ, queue)                                                                                              \
+    ENS("representation invariant kept, queue empty, storage kept", PQ_STATE(queue) && PQ_HO(queue) && PQ_FIELDS_KEPT(queue) && PQ_LEN(queue) == 0) \
+    ENS("every handle that was in the queue is marked not-in-queue", g_on && g_h_inq ==> g_nodes[g_h].current_index == SIZE_MAX) \
+    ENS("handles outside the queue are untouched", g_on && !g_h_inq ==> PQ_H_UNTOUCHED)                                \
+    ENS("no handle is in the queue", g_on ==> !PQ_INQ(queue, g_h))
+
 void aws_priority_queue_clear(struct aws_priority_queue *queue)
-__CPROVER_requires(PQ_STATE(queue) && PQ_HO(queue))
-PQ_REQ_WITNESSES(queue)
+PQ_C_clear(PQ_REQ, PQ_ENS, queue)
 __CPROVER_assigns(queue->container.data != NULL : queue->container.length)
 __CPROVER_assigns(PQ_BP_LIVE(queue) : queue->backpointers.length, __CPROVER_object_whole(g_nodes))
-__CPROVER_ensures(PQ_STATE(queue) && PQ_HO(queue))
-__CPROVER_ensures(PQ_LEN(queue) == 0 && PQ_CUR(queue) == OLD(PQ_CUR(queue)))
-__CPROVER_ensures(g_on && g_h_inq ==> g_nodes[g_h].current_index == SIZE_MAX)
-__CPROVER_ensures(g_on && !g_h_inq ==> PQ_H_UNTOUCHED)
-__CPROVER_ensures(g_on ==> !PQ_INQ(queue, g_h))
 ;
 
-/* ------------------------------------------------------------------ observers, init, clean-up (loop-free) */
+/* ------------------------------------------------------------------ observers and clean-up */
+#define PQ_C_size(REQ, ENS, queue, ret)                                                                                \
+    REQ("state", PQ_STATE(queue))                                                                                      \
+    ENS("size is the number of stored elements", ret == PQ_LEN(queue))
 size_t aws_priority_queue_size(const struct aws_priority_queue *queue)
-__CPROVER_requires(PQ_STATE(queue))
+PQ_C_size(PQ_REQ, PQ_ENS, queue, RET)
 __CPROVER_assigns()
-__CPROVER_ensures(RET == PQ_LEN(queue))
 ;
 
+#define PQ_C_capacity(REQ, ENS, queue, ret)                                                                            \
+    REQ("state", PQ_STATE(queue))                                                                                      \
+    ENS("capacity is the storage size in elements and at least the size", ret == PQ_CUR(queue) / ISZ && ret >= PQ_LEN(queue))
 size_t aws_priority_queue_capacity(const struct aws_priority_queue *queue)
-__CPROVER_requires(PQ_STATE(queue))
+PQ_C_capacity(PQ_REQ, PQ_ENS, queue, RET)
 __CPROVER_assigns()
-__CPROVER_ensures(RET == PQ_CUR(queue) / ISZ && RET >= PQ_LEN(queue))
 ;
 
+/* releases both arrays of a dynamic queue, nothing of a static one; the struct's lists are zeroed */
+#define PQ_C_clean_up(REQ, ENS, queue)                                                                                 \
+    REQ("state", PQ_STATE(queue))                                                                                      \
+    ENS("both lists zeroed", PQ_BP_ZERO(queue) && (queue)->container.alloc == NULL && PQ_LEN(queue) == 0 && PQ_CUR(queue) == 0 && \
+                             (queue)->container.data == NULL && (queue)->container.item_size == 0)
+void aws_priority_queue_clean_up(struct aws_priority_queue *queue)
+PQ_C_clean_up(PQ_REQ, PQ_ENS, queue)
+__CPROVER_assigns(queue->container, queue->backpointers)
+__CPROVER_frees(PQ_DYN(queue) && queue->container.data != NULL : queue->container.data)
+__CPROVER_frees(PQ_BP_LIVE(queue) : queue->backpointers.data)
+;
+
+/* ------------------------------------------------------------------ loop-free, any size: enforced with DFCC (mode proof) */
 void aws_priority_queue_node_init(struct aws_priority_queue_node *node)
 __CPROVER_requires(__CPROVER_is_fresh(node, sizeof(*node)))
 __CPROVER_assigns(node->current_index)
@@ -485,16 +559,6 @@ __CPROVER_ensures(RET == AWS_OP_SUCCESS ==> queue->container.alloc == alloc && P
                   (default_size == 0 ? queue->container.data == NULL : __CPROVER_is_fresh(queue->container.data, PQ_CUR(queue))))
 __CPROVER_ensures(RET != AWS_OP_SUCCESS ==> g_last_error == AWS_ERROR_OVERFLOW_DETECTED && queue->container.alloc == NULL &&
                   PQ_LEN(queue) == 0 && queue->container.item_size == 0 && PQ_CUR(queue) == 0 && queue->container.data == NULL)
-;
-
-/* releases both arrays of a dynamic queue, nothing of a static one; the struct's lists are zeroed */
-void aws_priority_queue_clean_up(struct aws_priority_queue *queue)
-__CPROVER_requires(PQ_STATE(queue))
-__CPROVER_assigns(queue->container, queue->backpointers)
-__CPROVER_frees(PQ_DYN(queue) && queue->container.data != NULL : queue->container.data)
-__CPROVER_frees(PQ_BP_LIVE(queue) : queue->backpointers.data)
-__CPROVER_ensures(PQ_BP_ZERO(queue) && queue->container.alloc == NULL && PQ_LEN(queue) == 0 && PQ_CUR(queue) == 0 &&
-                  queue->container.data == NULL && queue->container.item_size == 0)
 ;
 
 #endif
